@@ -9,55 +9,82 @@ Import ListNotations.
 Open Scope Z_scope.
 
 Section Run.
+Variable compress : Z -> list N -> list N.
 Variable decomp : Z -> list N -> option (list N).
+Hypothesis decomp_law : forall c x, decomp c (compress c x) = Some x.
 Variable o : Z.     (* the fetch offset = Conn.offset while the batch is open *)
 
 (* ---------------------------------------------------------------- one call of msr_read *)
-Definition plen_of (b : pbatch) : Z := blen (enc_records (pb_base b) (pb_ts b) (pb_recs b)).
+Definition erecs (b : pbatch) (rs : list record) : list N := enc_records (pb_base b) (pb_ts b) rs.
+Definition payload (b : pbatch) : list N :=
+  if pb_codec b =? 0 then erecs b (pb_recs b) else compress (pb_codec b) (erecs b (pb_recs b)).
+Definition plen_of (b : pbatch) : Z := blen (payload b).
 Definition hdr_of (b : pbatch) : hdr := vhdr b (plen_of b).
 
+(* sizes fit the wire format; a record-less batch carries no payload *)
 Definition v2ok (b : pbatch) : Prop :=
-  pb_codec b = 0 /\ batch_fits b (plen_of b) /\ Forall rec_fits (pb_recs b)
-  /\ Forall (fun r => blen (enc_record_body (pb_base b) (pb_ts b) r) < 2 ^ 31) (pb_recs b).
+  batch_fits b (plen_of b) /\ Forall rec_fits (pb_recs b)
+  /\ Forall (fun r => blen (enc_record_body (pb_base b) (pb_ts b) r) < 2 ^ 31) (pb_recs b)
+  /\ (pb_codec b <> 0 -> pb_recs b <> []).
 
-Lemma read_header_busy fuel i c h lr el : 0 < c ->
-  read_header fuel (st i c h lr el) = MOk tt (st i c h lr el).
+Lemma read_header_busy_p fuel ps bse i c h lr el : 0 < c ->
+  read_header fuel (stp ps bse i c h lr el) = MOk tt (stp ps bse i c h lr el).
 Proof.
-  intros Hc. unfold read_header. rewrite top_st. cbn [f_count].
+  intros Hc. unfold read_header. rewrite top_stp. cbn [f_count].
   replace (0 <? c) with true by lia. reflexivity.
 Qed.
 
-Lemma prepare_noop b f m : pb_codec b = 0 -> f_hdr f = hdr_of b -> read_v2_prepare decomp f m = MOk tt m.
+Lemma read_header_busy fuel i c h lr el : 0 < c ->
+  read_header fuel (st i c h lr el) = MOk tt (st i c h lr el).
+Proof. apply (read_header_busy_p fuel [] 0). Qed.
+
+(* nothing to decompress: the batch is not compressed, or a record of it was read already *)
+Lemma prepare_noop b f m : f_hdr f = hdr_of b ->
+  pb_codec b = 0 \/ f_count f <> Z.of_nat (length (pb_recs b)) ->
+  read_v2_prepare decomp f m = MOk tt m.
 Proof.
-  intros Hc Hh. unfold read_v2_prepare. rewrite Hh. cbv zeta.
-  destruct (f_count f =? h_count (hdr_of b)); [|reflexivity].
-  unfold codec_of, hdr_of, vhdr. cbn [h_magic h_attr]. rewrite Hc. reflexivity.
+  intros Hh Hc. unfold read_v2_prepare. rewrite Hh. cbv zeta.
+  destruct (f_count f =? h_count (hdr_of b)) eqn:E; [|reflexivity].
+  destruct Hc as [Hc|Hc].
+  - unfold codec_of, hdr_of, vhdr. cbn [h_magic h_attr]. rewrite Hc. reflexivity.
+  - exfalso. unfold hdr_of, vhdr in E. cbn [h_count] in E. lia.
+Qed.
+
+Lemma msr_read_rec_ok_g fuel mn b r rest ps bse c lr el :
+  v2ok b -> In r (pb_recs b) -> 0 < c ->
+  pb_codec b = 0 \/ c <> Z.of_nat (length (pb_recs b)) ->
+  msr_read decomp fuel mn (stp ps bse (enc_record (pb_base b) (pb_ts b) r ++ rest) c (hdr_of b) lr el)
+  = MOk (msg_of r, pb_base b + pb_lod b)
+        (mkMsr (unwind (mkFrame rest (len rest) bse (c - 1) (hdr_of b) :: ps)) false
+               (lr - len (enc_record (pb_base b) (pb_ts b) r)) el).
+Proof.
+  intros ((B1 & B2 & B3 & B4 & B5 & B6) & Hfits & Hbody & _) Hin Hc Hprep.
+  pose proof (proj1 (Forall_forall _ _) Hfits r Hin) as Hf.
+  pose proof (proj1 (Forall_forall _ _) Hbody r Hin) as Hb.
+  unfold msr_read. cbn [m_empty stp]. unfold bind at 1. rewrite read_header_busy_p by exact Hc.
+  rewrite top_stp. cbn [f_hdr hdr_of vhdr h_magic]. cbn [Z.eqb Pos.eqb orb].
+  unfold bind at 1. unfold read_v2. unfold bind at 1. rewrite read_header_busy_p by exact Hc.
+  rewrite top_stp. unfold bind at 1. rewrite (prepare_noop b) by (try exact Hprep; reflexivity).
+  unfold hdr_of, vhdr.
+  rewrite record_ok_g by assumption.
+  unfold msg_fields, ret, msg_of. reflexivity.
 Qed.
 
 Lemma msr_read_rec_ok fuel mn b r rest c lr el :
-  v2ok b -> In r (pb_recs b) -> 0 < c ->
+  v2ok b -> pb_codec b = 0 -> In r (pb_recs b) -> 0 < c ->
   msr_read decomp fuel mn (st (enc_record (pb_base b) (pb_ts b) r ++ rest) c (hdr_of b) lr el)
   = MOk (msg_of r, pb_base b + pb_lod b)
         (st rest (c - 1) (hdr_of b) (lr - len (enc_record (pb_base b) (pb_ts b) r)) el).
 Proof.
-  intros (Hc0 & (B1 & B2 & B3 & B4 & B5 & B6) & Hfits & Hbody) Hin Hc.
-  pose proof (proj1 (Forall_forall _ _) Hfits r Hin) as Hf.
-  pose proof (proj1 (Forall_forall _ _) Hbody r Hin) as Hb.
-  unfold msr_read. cbn [m_empty st]. unfold bind at 1. rewrite read_header_busy by exact Hc.
-  rewrite top_st. cbn [f_hdr hdr_of vhdr h_magic]. cbn [Z.eqb Pos.eqb orb].
-  unfold bind at 1. unfold read_v2. unfold bind at 1. rewrite read_header_busy by exact Hc.
-  rewrite top_st. unfold bind at 1. rewrite (prepare_noop b) by (try exact Hc0; reflexivity).
-  unfold hdr_of, vhdr.
-  rewrite record_ok by assumption.
-  unfold msg_fields, ret, msg_of. reflexivity.
+  intros Hok Hc0 Hin Hc. apply (msr_read_rec_ok_g fuel mn b r rest [] 0 c lr el Hok Hin Hc). left. exact Hc0.
 Qed.
 
 Lemma msr_read_rec_short fuel mn b r q q' c lr el :
-  v2ok b -> In r (pb_recs b) -> 0 < c ->
+  v2ok b -> pb_codec b = 0 -> In r (pb_recs b) -> 0 < c ->
   enc_record (pb_base b) (pb_ts b) r = q ++ q' -> q' <> [] ->
   exists i', msr_read decomp fuel mn (st q c (hdr_of b) lr el) = MErr EShort (st i' c (hdr_of b) lr el).
 Proof.
-  intros (Hc0 & (B1 & B2 & B3 & B4 & B5 & B6) & Hfits & Hbody) Hin Hc He Hq.
+  intros ((B1 & B2 & B3 & B4 & B5 & B6) & Hfits & Hbody & _) Hc0 Hin Hc He Hq.
   pose proof (proj1 (Forall_forall _ _) Hfits r Hin) as Hf.
   pose proof (proj1 (Forall_forall _ _) Hbody r Hin) as Hb.
   destruct (record_short (pb_base b) (pb_ts b) (pb_lod b) (49 + plen_of b) (pb_codec b)
@@ -66,10 +93,84 @@ Proof.
   unfold msr_read. cbn [m_empty st]. unfold bind at 1. rewrite read_header_busy by exact Hc.
   rewrite top_st. cbn [f_hdr hdr_of vhdr h_magic]. cbn [Z.eqb Pos.eqb orb].
   unfold bind at 1. unfold read_v2. unfold bind at 1. rewrite read_header_busy by exact Hc.
-  rewrite top_st. unfold bind at 1. rewrite (prepare_noop b) by (try exact Hc0; reflexivity).
+  rewrite top_st. unfold bind at 1. rewrite (prepare_noop b) by (try (left; exact Hc0); reflexivity).
   unfold hdr_of, vhdr in *. cbv zeta in Hi'. rewrite Hi'. reflexivity.
 Qed.
 
+(* a compressed batch whose header was read: the payload is decompressed as a whole and the
+   first record comes out of it, or the payload is cut and nothing does *)
+Lemma land7 c : 1 <= c <= 4 -> Z.land c 7 = c.
+Proof. intros H. assert (c = 1 \/ c = 2 \/ c = 3 \/ c = 4) as [-> | [-> | [-> | ->]]] by lia; reflexivity. Qed.
+
+Lemma wrap32_small z : - 2 ^ 31 <= z < 2 ^ 31 -> wrap32 z = z.
+Proof. intros H. unfold wrap32, ZM31, ZM32. rewrite Z.mod_small; lia. Qed.
+
+Lemma msr_read_enter_comp fuel mn b r rs' R lr el :
+  v2ok b -> pb_codec b <> 0 -> pb_recs b = r :: rs' ->
+  msr_read decomp fuel mn (st (payload b ++ R) (Z.of_nat (length (pb_recs b))) (hdr_of b) lr el)
+  = MOk (msg_of r, pb_base b + pb_lod b)
+        (mkMsr (unwind (mkFrame (erecs b rs') (len (erecs b rs')) (-1) (Z.of_nat (length (pb_recs b)) - 1) (hdr_of b)
+                        :: [mkFrame R (len R) 0 0 (hdr_of b)])) false
+               (len (erecs b rs')) el).
+Proof.
+  intros Hok Hc0 Hrecs. pose proof Hok as ((B1 & B2 & B3 & B4 & B5 & B6) & Hfits & Hbody & _).
+  assert (Hn : 0 < Z.of_nat (length (pb_recs b))) by (rewrite Hrecs; cbn [length]; lia).
+  assert (Hin : In r (pb_recs b)) by (rewrite Hrecs; left; reflexivity).
+  pose proof (proj1 (Forall_forall _ _) Hfits r Hin) as Hf.
+  pose proof (proj1 (Forall_forall _ _) Hbody r Hin) as Hb.
+  unfold msr_read. cbn [m_empty st]. unfold bind at 1. rewrite read_header_busy by exact Hn.
+  rewrite top_st. cbn [f_hdr hdr_of vhdr h_magic]. cbn [Z.eqb Pos.eqb orb].
+  unfold bind at 1. unfold read_v2. unfold bind at 1. rewrite read_header_busy by exact Hn.
+  rewrite top_st. unfold bind at 1.
+  (* the preparation: decompress and push *)
+  assert (Hprep : read_v2_prepare decomp
+             (mkFrame (payload b ++ R) (len (payload b ++ R)) 0 (Z.of_nat (length (pb_recs b))) (hdr_of b))
+             (st (payload b ++ R) (Z.of_nat (length (pb_recs b))) (hdr_of b) lr el)
+           = MOk tt (stp [mkFrame R (len R) 0 0 (hdr_of b)] (-1) (erecs b (pb_recs b))
+                         (Z.of_nat (length (pb_recs b))) (hdr_of b) (len (erecs b (pb_recs b))) el)).
+  { unfold read_v2_prepare. cbv zeta. cbn [f_count f_hdr f_remain].
+    unfold hdr_of at 1, vhdr at 1. cbn [h_count]. rewrite Z.eqb_refl.
+    unfold bind at 1. unfold codec_of, hdr_of, vhdr. cbn [h_magic h_attr h_length]. cbn [Z.eqb Pos.eqb orb].
+    rewrite land7 by lia. replace (pb_codec b =? 0) with false by lia.
+    replace ((1 <=? pb_codec b) && (pb_codec b <=? 4)) with true by lia. unfold ret at 1.
+    replace (49 + plen_of b - 49) with (plen_of b) by lia.
+    rewrite wrap32_small by lia.
+    rewrite len_app. pose proof (len_nonneg R).
+    replace (len (payload b) + len R <? plen_of b) with false by (unfold plen_of, blen, len in *; lia).
+    replace (plen_of b <? 0) with false by lia.
+    unfold bind at 1. unfold lift at 1. cbn [m_stack st f_in f_remain]. unfold p_decompress.
+    replace (plen_of b <? 0) with false by lia. rewrite len_app.
+    replace (len (payload b) + len R <? plen_of b) with false by (unfold plen_of, blen, len in *; lia).
+    change (plen_of b) with (len (payload b)). rewrite ztake_app, zdrop_app.
+    unfold payload at 1. replace (pb_codec b =? 0) with false by lia. rewrite decomp_law.
+    unfold bind at 1, set_lrem. cbn [m_stack m_empty m_elast set_stack set_rd fst snd f_base f_count f_hdr f_in f_remain].
+    unfold stp. f_equal. f_equal. f_equal. f_equal. lia. }
+  fold (vhdr b (plen_of b)). fold (hdr_of b). rewrite Hprep. clear Hprep.
+  rewrite Hrecs at 1. unfold erecs at 1. cbn [enc_records flat_map]. fold (erecs b rs').
+  unfold hdr_of, vhdr.
+  rewrite record_ok_g by (try assumption; lia).
+  unfold msg_fields, ret, msg_of. f_equal. f_equal. f_equal.
+  unfold erecs. rewrite Hrecs. cbn [enc_records flat_map]. rewrite len_app. lia.
+Qed.
+
+Lemma msr_read_enter_short fuel mn b q c lr el :
+  v2ok b -> pb_codec b <> 0 -> c = Z.of_nat (length (pb_recs b)) -> len q < plen_of b ->
+  msr_read decomp fuel mn (st q c (hdr_of b) lr el) = MErr EShort (st q c (hdr_of b) lr el).
+Proof.
+  intros Hok Hc0 -> Hq. pose proof Hok as ((B1 & B2 & B3 & B4 & B5 & B6) & _ & _ & Hne).
+  assert (Hn : 0 < Z.of_nat (length (pb_recs b))).
+  { specialize (Hne Hc0). destruct (pb_recs b); [contradiction|cbn [length]; lia]. }
+  unfold msr_read. cbn [m_empty st]. unfold bind at 1. rewrite read_header_busy by exact Hn.
+  rewrite top_st. cbn [f_hdr hdr_of vhdr h_magic]. cbn [Z.eqb Pos.eqb orb].
+  unfold bind at 1. unfold read_v2. unfold bind at 1. rewrite read_header_busy by exact Hn.
+  rewrite top_st. unfold bind at 1.
+  unfold read_v2_prepare. cbv zeta. cbn [f_count f_hdr f_remain h_count]. rewrite Z.eqb_refl.
+  unfold bind at 1. unfold codec_of. cbn [h_magic h_attr h_length]. cbn [Z.eqb Pos.eqb orb].
+  rewrite land7 by lia. replace (pb_codec b =? 0) with false by lia.
+  replace ((1 <=? pb_codec b) && (pb_codec b <=? 4)) with true by lia. unfold ret at 1.
+  replace (49 + plen_of b - 49) with (plen_of b) by lia. rewrite wrap32_small by lia.
+  replace (len q <? plen_of b) with true by lia. reflexivity.
+Qed.
 
 (* ---------------------------------------------------------------- streams cut at a byte budget *)
 Lemma ztake_app_ge j a b : len a <= j -> ztake j (a ++ b) = a ++ ztake (j - len a) b.
@@ -91,8 +192,6 @@ Qed.
 Definition enc1 (b : pbatch) : list N :=
   hdr61 b (plen_of b) ++ enc_records (pb_base b) (pb_ts b) (pb_recs b).
 Definition encs (bs : list pbatch) : list N := flat_map enc1 bs.
-Definition erecs (b : pbatch) (rs : list record) : list N := enc_records (pb_base b) (pb_ts b) rs.
-
 Lemma enc1_eq compress b : pb_fmt b = 2 -> pb_codec b = 0 -> enc_batch compress b = enc1 b.
 Proof.
   intros Hf Hc. unfold enc_batch, enc_v2, enc1, hdr61, plen_of. rewrite Hf, Hc. cbn [Z.eqb Pos.eqb].
